@@ -162,6 +162,13 @@ def discharge(S, ob, leaf_types=None, invariants=None):
         if v[0] == "arrayvec" and v[1][0] == "array" and isinstance(v[2] if len(v) > 2 else None, int) and len(v[1][1]) < v[2]:
             return True, "literal contents below capacity", set()
         return False, "push into a fixed-capacity vector that may be full", set()
+    if kind == "CollectFull":
+        v, cap = ob["ops"]
+        from .models import vec_len
+        n = vec_len(eng, v)
+        if n is not None and cap is not None and n == cap:
+            return True, "source has exactly the capacity's number of items", set()
+        return False, "collecting an iterator of unbounded / unknown length into a fixed-capacity vector (panics on item CAP+1)", set()
     if kind == "SliceRange":
         v, lo, hi = ob["ops"]
         n = ob.get("len")
